@@ -15,6 +15,7 @@ def parseOp18 (j : Json) : Option (List (Op String)) :=
   | "set" => some [.set (jnat j "i") tok]
   | "remove" => some [.remove (jnat j "i")]
   | "swap" => some [.swap (jnat j "i") (jnat j "j")]
+  | "badtype" => some []   -- a value outside the range, refused by the generic setter: nothing changes
   | "decoded" => some ((match jget j "toks" with | .arr xs => xs.toList | _ => []).map fun (t : Json) => Op.append (t.getStr?.toOption.getD "<?>"))
   | _ => none
 
